@@ -2018,6 +2018,9 @@ func (s *Store) ReadFrom(r io.Reader) (int64, error) {
 	if !sql.IsValidSQLiteFile(f.Name()) {
 		return n, fmt.Errorf("invalid SQLite data")
 	}
+	if err := sql.CheckSQLiteFile(f.Name()); err != nil {
+		return n, fmt.Errorf("invalid SQLite data: %s", err)
+	}
 
 	// Raft won't snapshot unless there is at least one unsnapshotted log entry,
 	// so prep that now before we do anything destructive.
